@@ -7,3 +7,4 @@ import WowVerif.Props.C18
 #print axioms Wv.C18.wdt_second_write
 #print axioms Wv.C18.mwmo_names_roundtrip
 #print axioms Wv.C18.wdl_maof_points_at_mare
+#print axioms Wv.C18.wdt_payload_records_roundtrip
